@@ -122,3 +122,118 @@ Example C05_nest_nonvacuous :
     simple_stmts default_names ex_prog = true /\
     option_map tr (exec_list (lookup_fn fs) ex_env 60 lines ex_st) = Some [EExt 1; EExt 3; EExt 2].
 Proof. eexists. eexists. split; [vm_compute; reflexivity|]. repeat split; vm_compute; reflexivity. Qed.
+
+(* ====================================================================================
+   Composition with C03: the loop condition is a boolean FORMULA.
+
+   Above, a condition is any (precommand lines, guards) pair, "true" = what MC.Sem computes when
+   they run.  Here (Proofs/ComposeCond.v) the condition is the lowering of a formula f by
+   Model.CondLower.cond_of_formula (= Run.C04.lowc, what the correspondence check feeds to the
+   loop model), and the test of the JavaScript unfolding is `eval · f` (Model.Cond.eval, C03's
+   source-level truth value) on the state BEFORE each iteration:
+
+     lowers nm f c            formula_ok nm f (C03's hypothesis) /\ exists wrapped, cond_of_formula nm wrapped f = Some c
+     same_but_logic nm a b    b is a except on `__logic__N` flags
+     js_while test T iter st n st'   `while (test) iter` makes exactly n iterations from st and ends
+                              in st':  test st = false, st' = T st   |   test st = true, iter (T st) st2,
+                              then n-1 more from st2.   T = what evaluating the test does to the state.
+
+   Each theorem: there is T with T st = st except on `__logic__N` flags, for which the emitted
+   loop terminates in st' IFF the JavaScript unfolding with test `eval · f` does, after some n
+   iterations.  Body, initialiser and step are ARBITRARY commands: they may overwrite `__logic__N`
+   (a body containing conditions does) and the variables f reads.  No side condition is needed:
+   the precommand lines and the guarded line are consecutive lines of one function (nothing runs in
+   between), and every test re-initialises each flag it reads before reading it, whatever the
+   flags hold (C03_numbering_invariant; used through C03_guard_iff_partial, which holds for EVERY
+   state) — so stale flag values left by the body or by the previous test are harmless. *)
+From JMCV Require Import Model.CondLower Proofs.ComposeCond.
+
+Theorem C05_while_with_formula :
+  forall ft env nm f c body k caller fs,
+    lowers nm f c -> while_code nm c body k = (caller, fs) -> installed ft fs ->
+    exists T, (forall st, same_but_logic nm st (T st)) /\
+      forall st st', runs ft env caller st st' <->
+                     exists n, js_while (fun s => eval s f) T (runs ft env body) st n st'.
+Proof. exact while_with_formula. Qed.
+Print Assumptions C05_while_with_formula.
+
+(* do body while (f): the body once, then `while (f) body`: n + 1 iterations *)
+Theorem C05_dowhile_with_formula :
+  forall ft env nm f c body k caller fs,
+    lowers nm f c -> dowhile_code nm c body k = (caller, fs) -> installed ft fs ->
+    exists T, (forall st, same_but_logic nm st (T st)) /\
+      forall st st', runs ft env caller st st' <->
+                     exists n st2, runs ft env body st st2 /\
+                                   js_while (fun s => eval s f) T (runs ft env body) st2 n st'.
+Proof. exact dowhile_with_formula. Qed.
+Print Assumptions C05_dowhile_with_formula.
+
+(* for (init; f; step) body: init once, then `while (f) { body; step }` *)
+Theorem C05_for_with_formula :
+  forall ft env nm f c init step body k caller fs,
+    lowers nm f c -> for_code nm init c step body k = (caller, fs) -> installed ft fs ->
+    exists T, (forall st, same_but_logic nm st (T st)) /\
+      forall st st', runs ft env caller st st' <->
+                     exists n st0, runs ft env init st st0 /\
+                                   js_while (fun s => eval s f) T
+                                            (fun a b => exists m, runs ft env body a m /\ runs ft env step m b) st0 n st'.
+Proof. exact for_with_formula. Qed.
+Print Assumptions C05_for_with_formula.
+
+(* n is the number of times the body's events appear on the trace (T = after_test, the T of the
+   three theorems above) *)
+Theorem C05_formula_iterations_in_trace :
+  forall ft env nm f c body,
+    (forall n st, tr (env n st) = tr st) ->
+    lowers nm f c -> all_ext body = true ->
+    forall st n st', js_while (fun s => eval s f) (after_test ft env c) (runs ft env body) st n st' ->
+      tr st' = times n (rev (map EExt (ext_ids body))) ++ tr st.
+Proof. exact formula_iterations_in_trace. Qed.
+Print Assumptions C05_formula_iterations_in_trace.
+
+(* A statement tree all of whose conditions are lowerings of formulas (formula_stmts) satisfies
+   the hypothesis of C05_any_nesting_depth. *)
+Theorem C05_any_nesting_depth_formulas :
+  forall nm ft env prog lines fs,
+    compile_body nm prog = Some (lines, fs) -> installed ft fs -> formula_stmts nm prog ->
+    forall st st', runs ft env lines st st' <-> sem_stmts nm ft env prog st st'.
+Proof. exact compile_body_correct_formulas. Qed.
+Print Assumptions C05_any_nesting_depth_formulas.
+
+(* Non-vacuity:  while (!($i >= 2 && $j) || $c) { X0; $i += 1 }  with X0 overwriting `__logic__0`
+   and `__logic__1` (the two flags the condition uses) with garbage, from i = 0, j = 1, c unset and
+   stale flags: the condition is computed by cond_of_formula, the hypotheses hold, the emitted code
+   makes 2 iterations, and so does the JavaScript loop `while (eval · f) body` run as a program
+   (js_iter), ending with the same $i. *)
+Definition fw_t (s : string) : Model.Cond.formula := Model.Cond.Leaf (Model.Cond.ATruthy (ex_v s)).
+Definition fw_f : Model.Cond.formula :=
+  Model.Cond.Or [Model.Cond.Not (Model.Cond.And
+                   [Model.Cond.Leaf (Model.Cond.ACmp (ex_v "$i") Model.Cond.SGe (Model.Cond.RLit 2)); fw_t "$j"]);
+                 fw_t "$c"].
+Definition fw_c : cond :=
+  match cond_of_formula default_names true fw_f with Some c => c | None => mkCond [] [] end.
+Definition fw_body := [CExt 0; CAdd (ex_v "$i") 1].
+Definition fw_code := while_code default_names fw_c fw_body 0.
+Definition fw_ft (f : string) : option (list cmd) := lookup_fn (snd fw_code) f.
+Definition fw_env (n : nat) (st : state) : state :=
+  set_sc (set_sc st (ex_v "__logic__0") 1) (ex_v "__logic__1") 7.
+Definition fw_st : state :=
+  mkState (fun k => if score_eqb k (ex_v "$i") then Some 0%Z
+                    else if score_eqb k (ex_v "$j") then Some 1%Z
+                    else if score_eqb k (ex_v "__logic__0") then Some 1%Z
+                    else if score_eqb k (ex_v "__logic__1") then Some 1%Z
+                    else None) (fun _ => None) [].
+
+Example C05_formula_nonvacuous :
+  lowers default_names fw_f fw_c /\ installed fw_ft (snd fw_code) /\ length (c_pre fw_c) = 5%nat /\
+  option_map tr (exec_list fw_ft fw_env 40 (fst fw_code) fw_st) = Some [EExt 0; EExt 0] /\
+  option_map (fun st => sc st (ex_v "$i")) (exec_list fw_ft fw_env 40 (fst fw_code) fw_st) = Some (Some 2%Z) /\
+  option_map (fun r => (fst r, sc (snd r) (ex_v "$i"), tr (snd r)))
+             (js_iter 10 (fun s => eval s fw_f) (exec_list fw_ft fw_env 5 fw_body) fw_st)
+    = Some (2%nat, Some 2%Z, [EExt 0; EExt 0]).
+Proof.
+  split.
+  { split; [|exists true; vm_compute; reflexivity]. split; [reflexivity|]. cbn.
+    repeat constructor; try (intros k E; discriminate E); vm_compute; discriminate. }
+  split; [repeat constructor|]. repeat split; vm_compute; reflexivity.
+Qed.
